@@ -441,7 +441,7 @@ struct ConfigRun {
   dump: ord::index::verif::Dump,
 }
 
-fn run_config(core: &mockcore::Handle, base: Option<&Path>, chain_flag: &str, ci: usize) -> Result<ConfigRun, String> {
+fn run_config(core: &mockcore::Handle, base: Option<&Path>, chain_flag: &str, ci: usize, salt: usize) -> Result<ConfigRun, String> {
   let dir = scratch();
   if let Some(b) = base {
     copy_dir(b, dir.path());
@@ -449,6 +449,10 @@ fn run_config(core: &mockcore::Handle, base: Option<&Path>, chain_flag: &str, ci
   }
   let mut flags = vec![chain_flag];
   flags.extend_from_slice(CONFIGS[ci].1);
+  // different commit schedules in different configurations: spent outputs are found in the
+  // cache, in the table (after a flush) or fetched
+  flags.push("--commit-interval");
+  flags.push(["1", "2", "5000"][(ci + salt) % 3]);
   let _ = ord::index::verif_fetch::take();
   let index = ordkit::open_index(core, dir.path(), &flags);
   index.update().map_err(|e| format!("update failed under `{}`: {e}", CONFIGS[ci].0))?;
@@ -587,7 +591,7 @@ fn run_case(case: &Case) -> Outcome {
   let mut runs: Vec<(usize, Result<ConfigRun, String>)> = Vec::new();
   for ci in &cfgs {
     let base = if signet_scen { Some(shm_snapshot(core, *ci)) } else { None };
-    runs.push((*ci, run_config(core, base.as_deref(), chain_flag, *ci)));
+    runs.push((*ci, run_config(core, base.as_deref(), chain_flag, *ci, case.blocks.len() + case.old.len())));
   }
 
   // restore the node
